@@ -77,6 +77,7 @@ func C13(c *core.Ctx) {
 	// spellings the common routine would have unified, and a second normalisation gives
 	// another result than the first.
 	c13DirectValidatorCalls(c)
+	c13CountryGuards(c)
 	c.Rule("C13-R3", "the regime's own rewriting of a tax code comes after the common normalisation", 3)
 	for _, fd := range p.AllFuncs() {
 		rel := core.RelPkg(fd.Obj.Pkg().Path())
